@@ -244,7 +244,7 @@ pub fn run(ctx: &mut Ctx) {
                 .into(),
         ),
     );
-    let n = ctx.tier_pick(600u64, 12000);
+    let n = ctx.tier_pick(600u64, 100_000);
     let mut rng = ctx.rng("cases");
     for i in 0..n {
         let lg_k = rng.range(4, 12);
